@@ -106,7 +106,7 @@ def run(chk):
                   "R %s simpr %s conv" % (q, qtylib.rpn_q(one, c["u"])),         # back to the raw unit
                   "R %s %s convto simpr" % (q, qtylib.rpn_q(one, c["u"][::-1]))]  # explicit conversion, then simplify
     # call sites through interpret
-    srcs = []
+    srcs, convs = [], []
     for c in rng.sample(cases, min(len(cases), 250 if quick else 1500)):
         s = qtylib.spell_unit(tbl, c["u"], rng)
         if s is None:
@@ -115,6 +115,11 @@ def run(chk):
         src = "let x = (%s) * %s␤print(x)␤print(\"{x}\")␤x" % (lit if not lit.startswith("-") else "(%s)" % lit, s)
         srcs.append(dict(case=c, src=src, at=len(lines)))
         lines.append("S@x " + src)
+        if len(c["u"]) >= 2:
+            # an explicit conversion (to the same unit, factors reversed) must come back unsimplified from interpret
+            tgt = qtylib.spell_unit(tbl, c["u"][::-1], rng)
+            convs.append(dict(case=c, at=len(lines), src="((%s) * %s) -> (%s)" % (lit, s, tgt)))
+            lines.append("S ((%s) * %s) -> (%s)" % (lit, s, tgt))
     outs = common.run_harness(binary, "qty", lines)
 
     failing, items, idx, panics = [], [], [], []
@@ -180,6 +185,13 @@ def run(chk):
         text = reg.display
         if len(prints) != 2 or prints[0] != text or prints[1] != text:
             failing.append((c, "print / string interpolation show %r, simplify(raw) displays %r" % (prints, text)))
+    for cv in convs:
+        c = cv["case"]
+        ob = Obs(outs[cv["at"]])
+        if c.get("panic") or ob.kind != "Q":
+            continue
+        if ob.unit != c["u"][::-1] or ob.simp != "n":
+            failing.append((c, "`%s` came back simplified from interpret: %s" % (cv["src"], ob.raw[:80])))
     bad = qtylib.coq_mismatches(items, "c05", shard_size=60)
     mism = {idx[k]: v for k, v in bad.items()}
     oos = [n for n in mism if mism[n] == "OOS"]
@@ -238,7 +250,7 @@ def run(chk):
                 "factors; distinct = distinct multiset of (unit, exponent)",
         "exhaustive": False, "cases": len(cases), "units_used": len(gen.used_units),
         "changed_by_registry": picked_by_registry, "left_unchanged": not_simplified,
-        "call_site_programs_checked": site_checked,
+        "call_site_programs_checked": site_checked, "explicit_conversions_through_interpret": len(convs),
         "model_evaluations": len(items), "model_mismatches": len(mism), "model_order_only_differences": order_only,
         "model_not_compared_guard": len(oos), "panics_predicted_by_model": len(known_panics),
         "oracle_failures": len(failing), "relative_tolerance": REL,
